@@ -147,6 +147,9 @@ func checkValues(ctx string, src string, vals []cssTok) string {
 			return fmt.Sprintf("whitespace token %q is not a single space", v.data)
 		}
 		if i == 0 && ctx == "prelude" && len(want) > 0 {
+			if want[0].data == "(" || want[0].data == "[" {
+				return fmt.Sprintf("whitespace token between the at-keyword and the bracket %q that opens the prelude %q", want[0].data, src)
+			}
 			continue // the at-keyword (reported as data) is the left neighbour of the prelude: the parser keeps that separator
 		}
 		if i == 0 || i == len(vals)-1 {
